@@ -54,6 +54,12 @@ S_REL = 1e-10         # agreement of the activities at two returned times (ill-c
 EXP_MAX = 709.0       # exp(x) overflows at 709.78
 NEAR_MAX = 640.0      # cause probe: back-extrapolation this close to the overflow has no room for t < 0
 
+class ReRest(tuple):
+    """A rest-time list whose Sample object was ALREADY activated once before (other exposure, other
+    rest times) and is activated again: the answer must be that of a fresh sample."""
+    reactivated = True
+
+
 SAMPLES = dict(
     quick=("Co30Fe70", "Au", "NaCl", "Eu", "Co", "SiO2", "Hf", "Lu2O3", "Cu[63]0.5Cu0.5", "Co[59]Co"),
     thorough=("Co30Fe70", "Au", "NaCl", "Eu", "Co", "SiO2", "In", "Hf", "Ag", "Lu2O3", "CdTe", "B4C",
@@ -65,7 +71,9 @@ ENVS = ((1e5, 70.0, 50.0), (1e8, 0.0, 0.0), (1e12, 1.0, 10.0))      # (fluence, 
 EXPOSURES = (0.1, 10.0, 1e3)
 # the first list is the control of the cause attribution and the first comparison base of oracle (5)
 LISTS = ((0,), (0, 1, 24, 360), (360, 24, 1, 0), (1,), (1, 24), (2,), (5, 0), (0.5, 0.25),
-         (0.5,), (24,), (360, 24), (3, 1, 2), (0.001,), (10, 5, 2.5), (0.0, 0.0), (1.0, 0.0), (1, 1))
+         (0.5,), (24,), (360, 24), (3, 1, 2), (0.001,), (10, 5, 2.5), (0.0, 0.0), (1.0, 0.0), (1, 1),
+         # the same Sample object activated a second time (state left over from the first calculation)
+         ReRest((0, 3)), ReRest((4,)), ReRest((24, 0.75)))
 EDGES = (705.0, 730.0)      # lambda*To of the shortest-lived product for the two per-configuration lists
 MULTS = (1e-9, 1e-8, 1e-7, 1e-6, 1e-5, 1e-4, 1e-3, 1e-2, 0.1, 0.3, 0.5, 0.6, 0.75, 0.9, 0.99, 0.999,
          1 - 1e-6, 1 - 1e-9, 1.0, 1 + 1e-9, 1 + 1e-6, 1.01, 1.5, 2.0, 5.0, 10.0)
@@ -80,10 +88,10 @@ META = dict(
           "activity at removal is above the target, so that a positive time has to be solved for"),
     bound=dict(
         quick="10 samples (Co30Fe70, Au, NaCl, Eu, Co, SiO2, Hf, Lu2O3, Cu[63]0.5Cu0.5, Co[59]Co - the last two name an isotope and its natural element) x 4 masses x 3 environments x 3 exposures = 360 "
-              "configurations x (17 + 2) rest-time lists x 26 target multipliers (1e-9 .. 10 times the activity at "
+              "configurations x (20 + 2) rest-time lists (3 of them on a Sample object that was activated before) x 26 target multipliers (1e-9 .. 10 times the activity at "
               "removal, with 1-1e-9, 1, 1+1e-9)",
         thorough="15 samples (quick + In, Ag, CdTe, B4C, Li[6]0.3Li0.7F) x 4 masses x 3 environments x 3 exposures = 432 "
-                 "configurations x (17 + 2) rest-time lists x 26 target multipliers (contains the quick grid)"),
+                 "configurations x (20 + 2) rest-time lists (3 of them on a Sample object that was activated before) x 26 target multipliers (contains the quick grid)"),
     assumptions=[
         "the activities at removal and the half-lives are those served by calculate_activation(rest_times=[0]) "
         "and ActivationResult.Thalf_hrs of the tree under test (their correctness is property C14)",
@@ -113,9 +121,11 @@ def lib():
 
 
 def activate(act, formula, mass, envt, exposure, rest):
-    """A fresh activated Sample (one execution of the real calculate_activation)."""
+    """An activated Sample (one execution of the real calculate_activation; two for a ReRest list)."""
     env = act.ActivationEnvironment(fluence=envt[0], Cd_ratio=envt[1], fast_ratio=envt[2])
     s = act.Sample(formula, mass)
+    if getattr(rest, "reactivated", False):
+        s.calculate_activation(env, exposure=3 * exposure, rest_times=[5, 2])
     s.calculate_activation(env, exposure=exposure, rest_times=list(rest))
     return s
 
@@ -328,6 +338,10 @@ def make_case(cfg, rest, mult, base_rest=None):
              exposure=exposure, rest_times=list(rest), mult=mult)
     if base_rest is not None:
         c["base_rest_times"] = list(base_rest)
+    if getattr(rest, "reactivated", False):
+        c["reactivated"] = True
+    if getattr(base_rest, "reactivated", False):
+        c["base_reactivated"] = True
     return c
 
 
@@ -342,8 +356,10 @@ def snippet(case, expected):
          "A0 = math.fsum(A for A, T in prod); target = A0*%r" % (case["mult"],),
          "S = lambda t: math.fsum(A*2.0**(-t/T) for A, T in prod)   # total activity t hours after removal",
          "def answer(rest_times):",
-         "    s = act.Sample(%r, %r); s.calculate_activation(env, exposure=%r, rest_times=rest_times)"
-         % (case["formula"], case["mass"], case["exposure"]),
+         "    s = act.Sample(%r, %r)" % (case["formula"], case["mass"]),
+         ("    s.calculate_activation(env, exposure=%r, rest_times=[5, 2])   # the same Sample object was activated before"
+          % (3 * case["exposure"],)) if case.get("reactivated") else "    pass",
+         "    s.calculate_activation(env, exposure=%r, rest_times=rest_times)" % (case["exposure"],),
          "    try:",
          "        t = s.decay_time(target)",
          "    except RuntimeError as e:",
@@ -511,8 +527,9 @@ def replay(ctx, case, signature=None):
     well because the attribution of a cause uses it as the control."""
     act = lib()
     cfg = (case["formula"], case["mass"], (case["fluence"], case["Cd_ratio"], case["fast_ratio"]), case["exposure"])
-    rest = tuple(case["rest_times"])
-    base = tuple(case["base_rest_times"]) if case.get("base_rest_times") else None
+    rest = (ReRest if case.get("reactivated") else tuple)(case["rest_times"])
+    base = (ReRest if case.get("base_reactivated") else tuple)(case["base_rest_times"]) \
+        if case.get("base_rest_times") else None
     lists = []
     for l in ((0,), base, rest):
         if l is not None and l not in lists:
